@@ -354,7 +354,7 @@ type Addr struct {
 }
 
 // fieldMode: heap objects are stored as one array per field ("fld:<type>#<i>") instead of one array of whole structs.
-var fieldMode = os.Getenv("GOVC_FIELDS") != ""
+var fieldMode = os.Getenv("GOVC_FIELDS") != "0"
 
 func fldKey(objKey string, i int) string {
 	return "fld:" + strings.TrimPrefix(objKey, "obj:") + "#" + strconv.Itoa(i)
